@@ -7,6 +7,11 @@ import (
 	"os"
 	"path/filepath"
 	"strconv"
+	"runtime"
+	"strings"
+	"sync"
+
+	tpretty "github.com/tidwall/pretty"
 
 	"github.com/gkampitakis/go-snaps/snaps"
 
@@ -128,7 +133,11 @@ func checkC14(c *vkit.Ctx) {
 	c.P.Rule = "case = (JSON document tree depth<=4 with hostile keys/strings/numbers, entry point MatchJSON|MatchStandaloneJSON, JSON format option set, two presentations: random insignificant whitespace, member shuffle when SortKeys is on, input form string|[]byte|Go value where the document is json.Marshal(value)); recorded through presentation 1, replayed through presentation 2 in a fresh simulated process (must pass, no write), recorded again through presentation 2 in another slot (texts must be equal), stored text decoded with encoding/json and compared with the input tree (ordered when SortKeys is off); plus invalid documents (24 malformation classes) in four modes over missing/existing slots; non-trivial = document with nesting>=2 or a hostile key/number/string class, or an invalid document; distinct by hash(document, presentations, options, api)"
 	c.P.Assumptions = []string{"encoding/json is the oracle for JSON validity and for decoding", "tree comparison treats numbers by exact rational value"}
 	cfgs := jsonCfgs()
-	n := c.N(6000, 300000)
+	if os.Getenv("VERIF_RACE_BUILD") == "1" {
+		c14Concurrent(c)
+		return
+	}
+	n := c.N(60000, 2000000)
 	for i := 0; i < n; i++ {
 		if !c.Mine(i) {
 			continue
@@ -297,4 +306,79 @@ func c14Invalid(c *vkit.Ctx, r *rand.Rand, i int) {
 		c.Violate("invalid-json-wrote", "", fmt.Sprintf("%s %s mode %s: %v", api, vkit.Q(bad), m.name, df), in)
 	}
 	c.Case(vkit.Hash("inv", bad, api, m.name, form, existing), true)
+}
+
+// c14Concurrent (-race build): the same Go value / string / []byte documents are
+// recorded from 8 goroutines at once, each into its own file; every stored text must
+// equal the text the same input stores when recorded alone. The race detector
+// watches the encoder and formatter buffers meanwhile.
+func c14Concurrent(c *vkit.Ctx) {
+	n := c.N(40, 1500)
+	// few Ps and large documents: a goroutine is then regularly preempted between
+	// encoding and formatting, which is when shared encoder state would be reused
+	defer runtime.GOMAXPROCS(runtime.GOMAXPROCS(2))
+	for i := 0; i < n; i++ {
+		if !c.Mine(i) {
+			continue
+		}
+		r := c.Rand("conc", i)
+		root := vkit.MkScratch("c14c")
+		snaps.VerifSetMode(false, "")
+		snaps.VerifSetNoColor(true)
+		snaps.VerifResetProcessState()
+		type job struct {
+			input any
+			want  string
+			name  string
+		}
+		var jobs []job
+		for g := 0; g < 12; g++ {
+			d := vkit.JSONObjectDoc(r, 3, 2, vkit.Classes{})
+			// pad so that documents are big enough for buffer reuse to matter
+			d.Keys = append(d.Keys, "pad")
+			d.Vals = append(d.Vals, &vkit.JNode{Kind: "str", S: strings.Repeat(fmt.Sprintf("g%d-", g), 300000)})
+			v, ok := goFromTree(d)
+			if !ok {
+				continue
+			}
+			b, err := json.Marshal(v)
+			if err != nil {
+				continue
+			}
+			want := strings.TrimSuffix(string(tpretty.PrettyOptions(b, &tpretty.Options{SortKeys: true, Indent: " "})), "\n")
+			var in any = v
+			switch r.IntN(3) {
+			case 0:
+				in = string(b)
+			case 1:
+				in = append([]byte(nil), b...)
+			}
+			jobs = append(jobs, job{in, want, fmt.Sprintf("g%d", g)})
+		}
+		var wg sync.WaitGroup
+		for _, j := range jobs {
+			wg.Add(1)
+			go func(j job) {
+				defer wg.Done()
+				t := vkit.NewT("TestConc_" + j.name)
+				snaps.WithConfig(snaps.Dir(root), snaps.Filename(j.name)).MatchStandaloneJSON(t, j.input)
+				snaps.WithConfig(snaps.Dir(root), snaps.Filename("multi_"+j.name)).MatchJSON(t, j.input)
+				t.Finish()
+			}(j)
+		}
+		wg.Wait()
+		for _, j := range jobs {
+			b, _ := os.ReadFile(filepath.Join(root, j.name+"_1.snap.json"))
+			if string(b) != j.want {
+				c.Violate("concurrent-call-stored-another-document", "", fmt.Sprintf("%s: stored %s, its own canonical text is %s", j.name, vkit.Q(string(b)), vkit.Q(j.want)), map[string]any{"goroutine": j.name})
+			}
+			ents, _ := vkit.ReadSnapFile(filepath.Join(root, "multi_"+j.name+".snap"))
+			if len(ents) != 1 || ents[0].Body != j.want {
+				c.Violate("concurrent-call-stored-another-document", "", fmt.Sprintf("multi_%s: %d entries", j.name, len(ents)), map[string]any{"goroutine": j.name})
+			}
+			c.Count("concurrent_documents_checked", 2)
+		}
+		os.RemoveAll(root)
+		c.Case(vkit.Hash("c14conc", i), true)
+	}
 }
